@@ -10,10 +10,20 @@ structure DeclArgs where
   times : Option Int := none
   ret : Int := 0
   cons : List Con := []
+  side : Option (Nat × List Int) := none
 
 def parseDeclArg (d : DeclArgs) (tok : String) : Option DeclArgs :=
   if tok.startsWith "t" then (tok.drop 1).toString.toInt?.map (fun n => { d with times := some n })
   else if tok.startsWith "r" then (tok.drop 1).toString.toInt?.map (fun n => { d with ret := n })
+  else if tok.startsWith "s" then
+    -- s<g>:<a0>,<a1>,…   side effect: callback calls mocked function g
+    match (tok.drop 1).toString.splitOn ":" with
+    | [g, as] =>
+      match g.toNat?, ((as.splitOn ",").filter (· ≠ "")).mapM (·.toInt?) with
+      | some g, some a => some { d with side := some (g, a) }
+      | _, _ => none
+    | [g] => g.toNat?.map (fun g => { d with side := some (g, []) })
+    | _ => none
   else if tok.startsWith "w" then
     match (tok.drop 1).toString.splitOn ":" with
     | [p, op, v] =>
@@ -22,6 +32,19 @@ def parseDeclArg (d : DeclArgs) (tok : String) : Option DeclArgs :=
       | _, _, _ => none
     | _ => none
   else none
+
+def parseOpS (line : String) : Option (Op × Option (Nat × List Int)) :=
+  match (line.trimAscii.toString.splitOn " ").filter (· ≠ "") with
+  | kind :: f :: rest =>
+    if kind = "expect" || kind = "always" || kind = "never" then do
+      let f ← f.toNat?
+      let d ← rest.foldlM parseDeclArg {}
+      match kind with
+      | "expect" => pure (.decl (.expect d.times) f d.ret d.cons, d.side)
+      | "always" => pure (.decl .always f d.ret d.cons, d.side)
+      | _ => pure (.decl .never f d.ret d.cons, none)
+    else none
+  | _ => none
 
 def parseOp (line : String) : Option Op :=
   match (line.trimAscii.toString.splitOn " ").filter (· ≠ "") with
@@ -60,7 +83,18 @@ def specLines (lines : List String) : List String :=
       match parseOp l with
       | none => [s!"error bad op {l}"]
       | some op =>
-        let r := specStep s op
+        let r := match op, parseOpS l with
+          | .decl k f rv c, some (_, side) =>
+            let r0 := specStep s op
+            -- attach the side effect to the entry just appended to f's FIFO (if the declaration was accepted)
+            if r0.2.isEmpty then
+              let s1 : SState := r0.1
+              let qf := s1.qs f
+              let qf' : List Exp := qf.dropLast ++ (qf.getLast?.map (fun (e : Exp) => ({ e with side := side } : Exp))).toList
+              (({ s1 with qs := fun g => if g = f then qf' else s1.qs g } : SState), r0.2)
+            else r0
+          | .call f a, _ => specCallS 6 s f a
+          | _, _ => specStep s op
         let outs := match op with
           | .tally =>
             let all := (List.range 8).flatMap (fun g => specTally s g)
@@ -78,7 +112,10 @@ def runLines (lines : List String) : List String :=
       match parseOp l with
       | none => [s!"error bad op {l}"]
       | some op =>
-        let r := step s op
+        let r := match op, parseOpS l with
+          | .decl k f rv c, some (_, side) => declareS s k f rv c side
+          | .call f a, _ => callS 6 s f a
+          | _, _ => step s op
         s!"out {" ".intercalate (r.2.map showOut)} | q {"".intercalate (r.1.q.map showExp)}" :: go r.1 ls
   go {} lines
 
